@@ -25,6 +25,7 @@ type req struct {
 	Opt          uint   `json:"opt"`
 	LinkModules  bool   `json:"link_modules"`
 	LinkListDefs bool   `json:"link_listdefs"`
+	Separate     bool   `json:"separate"` // every module into an object of its own (hook VerifCompileSeparate)
 }
 
 type diag struct {
@@ -40,6 +41,7 @@ type resp struct {
 	Diags  []diag   `json:"diags"`
 	Err    string   `json:"err,omitempty"`
 	Deps   []string `json:"deps,omitempty"`
+	Objs   []string `json:"objs,omitempty"`
 }
 
 func handle(r *req) (out resp) {
@@ -70,6 +72,34 @@ func handle(r *req) (out resp) {
 	handler := func(e ddperror.Error) {
 		out.Diags = append(out.Diags, diag{int(e.Code), int(e.Level), filepath.Base(e.File),
 			[4]uint{e.Range.Start.Line, e.Range.Start.Column, e.Range.End.Line, e.Range.End.Column}, e.Msg})
+	}
+	if r.Separate {
+		f.Close()
+		os.Remove(r.Out)
+		objs, res, err := compiler.VerifCompileSeparate(compiler.Options{
+			FileName:          r.Main,
+			ErrorHandler:      handler,
+			LinkInListDefs:    r.LinkListDefs,
+			OptimizationLevel: r.Opt,
+		}, r.Dir)
+		if err != nil {
+			out.Err = err.Error()
+			if len(out.Err) > 1500 {
+				out.Err = out.Err[:1500]
+			}
+			if strings.Contains(out.Err, "Fehlerhafter Quellcode") || strings.Contains(out.Err, "Fehler beim Parsen") && len(out.Diags) > 0 {
+				out.Result = "rejected"
+			} else {
+				out.Result = "internal-error"
+			}
+			return
+		}
+		out.Result = "ok"
+		out.Objs = objs
+		for d := range res.Dependencies {
+			out.Deps = append(out.Deps, d)
+		}
+		return
 	}
 	res, err := compiler.Compile(compiler.Options{
 		FileName:                r.Main,
